@@ -81,6 +81,15 @@ CHECKS = {
         "Trusted: mc/refs/vt_ref.py; sizes <= 9x3 / 2x4; depth bounds in evidence; Terminal widget (child process) not driven, only TermCanvas.",
         "DESIGN.md §4 C15",
     ),
+    "C07": (
+        MC,
+        "explicit-state BFS over event histories on real ListBoxes with three walker kinds, every reached state rendered and compared with a slice-of-concatenation oracle",
+        "From every initial (walker kind, item list, box size) the BFS applies keys, button-1 presses on every row, wheel events, set_focus with every "
+        "coming_from, set_focus_valign, resizes and walker insert/append/delete/replace; states are deduplicated on the complete ListBox state; each state "
+        "is rendered and its rows must be a contiguous slice of the items' own renderings with focus/cursor visible and blanks only at the bottom.",
+        "Trusted: unique row texts make the slice decidable; width fixed at 4 columns; depth 2/3; lists of <= 2/3 items + 6 longer ones.",
+        "DESIGN.md §4 C07",
+    ),
 }
 
 PENDING_REASON = "check not built yet in this round (see DESIGN.md Appendix B build order); no claim is made"
